@@ -1,6 +1,6 @@
 (* C05 — tree_map family calls the function once per leaf, in order, on aligned arguments. *)
 From OptreeModel Require Import Base Tree Flatten Unflatten Spec Ops Walk.
-From OptreeProofs Require Import OpsProofs WalkProofs.
+From OptreeProofs Require Import OpsProofs WalkProofs Replace MapLaws.
 
 (* f is called exactly on the rows (leaf_i(t), sub_i(rest_1), ...): once per leaf, in flatten
    order, where sub_i(rest) is the i-th element flatten_up_to returns (the subtree at the i-th leaf's
@@ -69,3 +69,20 @@ Example C05_example :
   (Ok (Node HTuple [Node HTuple [Leaf 1; Node HTuple [Leaf 5]]; Node HList [Node HTuple [Leaf 2; Leaf 6]]]),
    [[Leaf 1; Node HTuple [Leaf 5]]; [Leaf 2; Leaf 6]]).
 Proof. vm_compute. reflexivity. Qed.
+
+(* mapping the identity rebuilds the same tree (new containers in the implementation; the model's
+   values are compared structurally), for every configuration *)
+Theorem C05_map_identity :
+  forall c t ls sp, wf_obj t = true -> flatten c t = Ok (ls, sp) ->
+  tree_map c (lift (fun x => x)) t [] = Ok t.
+Proof. exact map_identity. Qed.
+Print Assumptions C05_map_identity.
+
+(* map (f o g) = map f o map g for leaf-valued g (no predicate: a predicate could accept a rebuilt container) *)
+Theorem C05_map_compose :
+  forall c f g t t',
+    c_pred c = None -> wf_obj t = true -> (forall x, leaflike c (g x) = true) ->
+    tree_map c (lift g) t [] = Ok t' ->
+    tree_map c (lift f) t' [] = tree_map c (lift (fun x => f (g x))) t [].
+Proof. exact map_compose. Qed.
+Print Assumptions C05_map_compose.
